@@ -2,6 +2,7 @@ package types
 
 import (
 	"fmt"
+	"math"
 	"time"
 )
 
@@ -84,6 +85,9 @@ func (p Params) Validate() error {
 	}
 	if err := validateUint64("sampling try count", true)(p.SamplingTryCount); err != nil {
 		return err
+	}
+	if p.SamplingTryCount > math.MaxInt64 {
+		return fmt.Errorf("sampling try count must not exceed %d: %d", int64(math.MaxInt64), p.SamplingTryCount)
 	}
 	if err := validateUint64("oracle reward percentage", false)(p.OracleRewardPercentage); err != nil {
 		return err
